@@ -284,6 +284,61 @@ struct Instance<'a> {
   fields: Vec<Value<'a>>,
 }
 
+/// Dropping a value must not recurse along the data (a list built by a loop can be millions of
+/// cells long and the native stack is finite): uniquely owned children are moved to a worklist.
+fn dismantle<'a>(v: Value<'a>, work: &mut Vec<Value<'a>>) {
+  match v {
+    Value::Struct(rc) | Value::Variant(rc) => {
+      if let Ok(mut instance) = Rc::try_unwrap(rc) {
+        work.append(&mut instance.fields);
+      }
+    }
+    Value::Vec(rc) => {
+      if let Ok(cell) = Rc::try_unwrap(rc) {
+        work.append(&mut cell.into_inner());
+      }
+    }
+    Value::Fun(rc) => match Rc::try_unwrap(rc) {
+      Ok(Fun::Lambda { env, .. }) => {
+        let mut next = env.0;
+        while let Some(node) = next.take() {
+          let Ok(mut node) = Rc::try_unwrap(node) else { break };
+          work.push(std::mem::replace(&mut node.value, Value::Unit));
+          next = node.next.0.take();
+        }
+      }
+      Ok(Fun::Bound(recv, _)) => work.push(recv),
+      _ => {}
+    },
+    Value::Unit | Value::Int(_) | Value::Bool(_) | Value::Str(_) | Value::Class(_) => {}
+  }
+}
+
+impl Drop for Instance<'_> {
+  fn drop(&mut self) {
+    let mut work = std::mem::take(&mut self.fields);
+    while let Some(v) = work.pop() {
+      dismantle(v, &mut work);
+    }
+  }
+}
+
+impl Drop for EnvNode<'_> {
+  fn drop(&mut self) {
+    if matches!(self.value, Value::Fun(_) | Value::Vec(_)) {
+      let mut work = vec![std::mem::replace(&mut self.value, Value::Unit)];
+      while let Some(v) = work.pop() {
+        dismantle(v, &mut work);
+      }
+    }
+    let mut next = self.next.0.take();
+    while let Some(node) = next.take() {
+      let Ok(mut node) = Rc::try_unwrap(node) else { break };
+      next = node.next.0.take();
+    }
+  }
+}
+
 enum Fun<'a> {
   Lambda { params: Vec<PStr>, body: &'a Ex, env: Env<'a> },
   /// `Foo.bar` used as a value (also constructors and builtin static functions).
@@ -331,6 +386,34 @@ impl<'a> Env<'a> {
   }
 }
 
+/// Multiplicative hasher for the class and member tables (keys are interned ids; SipHash showed
+/// up as 12% of the run time).
+#[derive(Default, Clone, Copy)]
+struct IdHasher(u64);
+impl std::hash::Hasher for IdHasher {
+  fn finish(&self) -> u64 {
+    self.0
+  }
+  fn write(&mut self, bytes: &[u8]) {
+    for chunk in bytes.chunks(8) {
+      let mut word = [0u8; 8];
+      word[..chunk.len()].copy_from_slice(chunk);
+      self.write_u64(u64::from_le_bytes(word));
+    }
+  }
+  fn write_u64(&mut self, x: u64) {
+    self.0 = (self.0.rotate_left(5) ^ x).wrapping_mul(0x517c_c1b7_2722_0a95);
+  }
+  fn write_usize(&mut self, x: usize) {
+    self.write_u64(x as u64);
+  }
+  fn write_u128(&mut self, x: u128) {
+    self.write_u64(x as u64);
+    self.write_u64((x >> 64) as u64);
+  }
+}
+type IdMap<K, V> = HashMap<K, V, std::hash::BuildHasherDefault<IdHasher>>;
+
 enum ClassKind {
   Plain,
   Struct { n_fields: usize, user_init: bool },
@@ -339,8 +422,8 @@ enum ClassKind {
 
 struct ClassInfo<'a> {
   kind: ClassKind,
-  functions: HashMap<PStr, &'a ClassMemberDefinition<Ty>>,
-  methods: HashMap<PStr, &'a ClassMemberDefinition<Ty>>,
+  functions: IdMap<PStr, &'a ClassMemberDefinition<Ty>>,
+  methods: IdMap<PStr, &'a ClassMemberDefinition<Ty>>,
 }
 
 // ------------------------------------------------------------------------------------------------
@@ -349,7 +432,7 @@ struct ClassInfo<'a> {
 
 struct Interp<'a> {
   heap: &'a Heap,
-  classes: HashMap<ClassKey, ClassInfo<'a>>,
+  classes: IdMap<ClassKey, ClassInfo<'a>>,
   lines: Vec<String>,
   fuel: u64,
   depth: usize,
@@ -423,12 +506,12 @@ impl<'a> Interp<'a> {
     max_depth: usize,
     opts: Options,
   ) -> Self {
-    let mut classes = HashMap::new();
+    let mut classes = IdMap::default();
     for (mod_ref, module) in modules {
       for toplevel in &module.toplevels {
         let Toplevel::Class(c) = toplevel else { continue };
-        let mut functions = HashMap::new();
-        let mut methods = HashMap::new();
+        let mut functions = IdMap::default();
+        let mut methods = IdMap::default();
         for m in &c.members.members {
           if m.decl.is_method {
             methods.insert(m.decl.name.name, m);
@@ -698,6 +781,7 @@ impl<'a> Interp<'a> {
     match (class.as_str(heap), name.as_str(heap), arg0) {
       ("Process", "println", Some(Value::Str(s))) => {
         self.fx_w += 1;
+        self.charge_bytes(s.len())?;
         self.lines.push(s.to_string());
         Ok(Value::Unit)
       }
@@ -875,6 +959,12 @@ impl<'a> Interp<'a> {
   /// only when they are separately built but structurally equal (or contain distinct function
   /// values, whose structure is not comparable) is the run excluded.
   fn equal(a: &Value<'a>, b: &Value<'a>) -> R<bool> {
+    match (a, b) {
+      (Value::Int(x), Value::Int(y)) => return Ok(x == y),
+      (Value::Bool(x), Value::Bool(y)) => return Ok(x == y),
+      (Value::Str(x), Value::Str(y)) => return Ok(x == y),
+      _ => {}
+    }
     let mut readings_disagree = false;
     let mut work = vec![(a.clone(), b.clone())]; // explicit stack: values can be very deep lists
     while let Some((x, y)) = work.pop() {
@@ -945,6 +1035,7 @@ impl<'a> Interp<'a> {
       (Bop::EQ, x, y) => Ok(Value::Bool(Self::equal(&x, &y)?)),
       (Bop::NE, x, y) => Ok(Value::Bool(!Self::equal(&x, &y)?)),
       (Bop::CONCAT, Value::Str(x), Value::Str(y)) => {
+        self.charge_bytes(x.len() + y.len())?;
         let mut s = String::with_capacity(x.len() + y.len());
         s.push_str(&x);
         s.push_str(&y);
@@ -1118,6 +1209,19 @@ impl<'a> Interp<'a> {
     }
   }
 
+  /// Strings are the one thing that can grow faster than fuel is spent (`s :: s` in a loop), so
+  /// building or printing a string also costs one unit of fuel per 8 bytes, and no single string
+  /// may exceed 64 MiB (reported as OutOfFuel: the oracle's resources, not the language's).
+  fn charge_bytes(&mut self, bytes: usize) -> R<()> {
+    let cost = (bytes / 8) as u64;
+    if self.fuel < cost || bytes > (64 << 20) {
+      self.fuel = 0;
+      return Err(Stop::OutOfFuel);
+    }
+    self.fuel -= cost;
+    Ok(())
+  }
+
   fn tick(&mut self) -> R<()> {
     if self.fuel == 0 {
       return Err(Stop::OutOfFuel);
@@ -1133,7 +1237,7 @@ impl<'a> Interp<'a> {
   }
 
   /// Evaluates `e`, except that a user-level call that is the last thing `e` does is returned
-  /// unperformed (see `run_call`). One unit of fuel per expression node.
+  /// unperformed (see `run_call`). One unit of fuel per expression node (see also `charge_bytes`).
   fn eval_tail(&mut self, e: &'a Ex, env: &Env<'a>) -> R<Step<'a>> {
     self.tick()?;
     if stack_pointer() < self.stack_floor {
@@ -1347,4 +1451,45 @@ pub fn main(args: &[String]) {
     };
   }
   let _ = out.flush();
+}
+
+#[cfg(test)]
+mod tests {
+  use super::*;
+
+  fn run(body: &str) -> Outcome {
+    let text = format!(
+      "class A(val x: int) {{ method add(o: A): A = A.init(this.x + o.x) }}\n\
+       class K {{ function mk(i: int): A = {{ Process.println(Str.fromInt(i)); A.init(i) }} }}\n\
+       class Main {{ function main(): unit = {{ {body} }} }}"
+    );
+    run_program(&[("T".to_string(), text)], "T", 1_000_000, 1_000)
+  }
+
+  /// Acceptance test: tests.AllTests prints exactly /repo/tests/snapshot.txt.
+  #[test]
+  fn all_tests_match_snapshot() {
+    let mut sources = Vec::new();
+    collect_sam_files(std::path::Path::new("/repo/tests"), "tests.", &mut sources);
+    let outcome = run_program(&sources, "tests.AllTests", u64::MAX, 100_000);
+    assert_eq!(outcome.ending, Ending::Return);
+    let printed: String = outcome.lines.iter().map(|l| format!("{l}\n")).collect();
+    assert!(printed == std::fs::read_to_string("/repo/tests/snapshot.txt").unwrap());
+  }
+
+  #[test]
+  fn endings() {
+    let excluded = |rule: &str| Ending::Excluded(rule.to_string());
+    assert_eq!(run("Process.println(Str.fromInt(2147483647 + 1))").ending, excluded("overflow"));
+    assert_eq!(run("let m = -2147483648; Process.println(Str.fromInt(m / -1))").ending, excluded("overflow"));
+    assert_eq!(run("Process.println(Str.fromInt(1 % 0))").ending, excluded("div-by-zero"));
+    assert_eq!(run("Process.println(Str.fromInt(-7 % 2))").ending, excluded("rem-sign-unspecified"));
+    assert_eq!(run("Process.println(Str.fromInt(\"1x\".toInt()))").ending, excluded("toInt-non-numeral"));
+    assert_eq!(run("Process.println(if A.init(1) == A.init(1) { \"t\" } else { \"f\" })").ending, excluded("eq-on-objects"));
+    assert_eq!(run("Process.println(Str.fromInt(K.mk(1).add(K.mk(2)).x))").ending, excluded("call-order"));
+    assert_eq!(run("let v = Vec.empty<int>(); let _ = v.pop();").ending, Ending::VecBounds("pop: empty Vec".to_string()));
+    assert_eq!(run("Process.println(\"a\"); Process.panic<unit>(\"b\")"), Outcome { lines: vec!["a".to_string()], ending: Ending::Panic("b".to_string()) });
+    assert_eq!(run("Process.println(Str.fromInt(-7 / 2))").lines, vec!["-3".to_string()]);
+    assert!(matches!(run("let x: int = true;").ending, Ending::Rejected(_)));
+  }
 }
